@@ -18,6 +18,13 @@ NA = {
  "C20":"integer square root: pure function of x",
 }
 CLAIMED = {
+ "C11": dict(
+   category="exploration",
+   text="SCOPED totality check: the simulated workloads of C08, C12, C16, C18 and C19 (every seam operation of the crate: sampling, (de)serialization, DER/RLP codecs, formatting, wrapper producers and consumers, Montgomery histories) run under a panic / progress monitor with every device fault those workloads inject (RNG failure at any call, deserializer errors, truncated / corrupted records, full writers and sinks), in TWO build profiles: release (opt-level 3, no debug assertions / overflow checks) in-process and dbg (opt-level 1, debug assertions, overflow checks) as a child process executing the same plans. Reported: an unwind where a Result/Option or no panic is documented, a documented panic that does not happen, a run whose event log differs between profiles (a trap or silent wrap in one of them), non-termination (finite-tape liveness bound of 256 rounds after faults stop; real-time watchdog).",
+   design_ref="DESIGN.md section 4, C11",
+   note="NOT decided: panics that depend on operand values alone in operations outside the simulated workloads (e.g. a debug_assert on a masked branch of a division helper) — that is operand-space search, outside this technique. Trusted: the expected-panic table (DESIGN appendix C) encoded at the call sites; catch_unwind; cargo profiles dbg/release apply to /repo because it is a path dependency.",
+   technique="deterministic simulation: panic/progress monitor around every simulated operation under injected seam faults, same plans executed in two build profiles and event logs compared",
+ ),
  "C08": dict(
    category="exploration",
    text="Refinement of a stateful implementation against a small executable reference model, checked step by step: seeded operation histories (4..64 events, 8 registers; construction with values below and above m, zero/one, add/sub/neg/double/mul/square/halve in every operator and assign form and through the Monty / Square traits, a long-lived multiplier object reused across events, select/swap, copy_montgomery_from, to/from_montgomery, clone/drop with shared Arc params, const -> runtime conversion, zeroize) run in lock-step on ConstMontyForm, MontyForm and BoxedMontyForm for widths 1,2,3,4,6,8,16,32 (boxed alone at every width 1..=33) and adversarial moduli (1, 3, 2^BITS-1, 2^(BITS-1)+1, ~2^BITS/3, ~2^BITS/4, zero high limbs, 0..130 leading zero bits, sparse, seeded). A separate batch adds seam events inside the history: ConstMontyForm::try_random from scripted / failing RNG tapes, and persist/restore of registers through the serde seam with storage faults. After every event every touched register of every replica: stored form < m, retrieve == model, replicas agree, boxed precision. Parameter sets of all constructors are compared with each other and with their definitions.",
